@@ -562,6 +562,7 @@ func runC02(c *Ctx) {
 	}
 	checkNextParamsNearest(c, "C02.D3 next-params-lookup-nearest-above")
 	checkImpliesMaxPrevotesIndex(c, "C02.D4 implies-max-prevotes-reads-the-previous-block")
+	checkPruneKeepsEntryInForce(c, "C02.D5 pruning-keeps-the-entry-in-force")
 	// codec tables of the stored schemas
 	for _, s := range p.schemas() {
 		if s.Owner != bftPkg+".BFTVotes" && s.Owner != bftPkg+".BFTParams" && s.Owner != bftPkg+".GeneratorKeys" && s.Owner != bftPkg+".BFTBlockHeader" && s.Owner != bftPkg+".ActiveValidator" && s.Owner != bftPkg+".BFTValidator" {
